@@ -203,7 +203,7 @@ class Lab:
                     if one['op'] == 'import':
                         continue
                     runner.apply(one)
-            target_w = {'addLoose': 12, 'addPacked': 30, 'packAll': 22, 'clean': 6, 'delete': 10, 'repackOne': 20}
+            target_w = {'addLoose': 12, 'addPacked': 30, 'packAll': 22, 'clean': 6, 'delete': 10, 'repackOne': 16, 'repack': 8}
             op = gen.next_op(rng, runner, weights=target_w, allow=set(target_w))
             if isinstance(op, list):
                 op = op[-1]
@@ -324,6 +324,18 @@ class Lab:
             nh = 0 if same else 1
             args = (f'import {store.b01(op["compress"])} {nh} {nh} {0 if op.get("do_fsync") is False else 1} '
                     + ('|'.join(store.show_nats(c_) for c_ in calls) if calls else '-'))
+        elif kind == 'repack':
+            seen = []
+            for t_ in real_toks:
+                if t_.startswith(('pkRead:', 'pkUnlink:')):
+                    p_ = int(t_.split(':')[1])
+                    if p_ not in seen and p_ != iotrace.TMP:
+                        seen.append(p_)
+            zs_of = {}
+            for part in (line.split(' ')[5].split('|') if line.split(' ')[5] != '-' else []):
+                p_, _o, z_ = part.split(':')
+                zs_of[int(p_)] = z_
+            args = 'repackAll ' + ('|'.join(f'{p_}:{zs_of.get(p_, "-")}' for p_ in seen) if seen else '-')
         else:
             args = runner.ir_args(rc, op, line)
         ans = runner._ask(f'store acts a {args}')  # pylint: disable=protected-access
@@ -546,7 +558,7 @@ class Lab:
         deterministic = _norm(ev_k[:k]) == _norm(events[:k]) if k <= len(events) else False
         crash_ok = False
         j = model_prefix(min(k, len(events)))
-        allow_loud = kind == 'repackOne'
+        allow_loud = kind in ('repackOne', 'repack')
         if 'crash' in self.parts:
             probs = self._oracle(d, pool, cfg, set(keep), univ, allow_loud, f'killed before I/O call #{k} of {kind}')
             for p in probs[:1]:
@@ -585,7 +597,7 @@ class Lab:
     def _rerun(self, d, cfg, pool, op, kind, label, expected_after, univ, log, outp, k):
         """once the fault has cleared / the machine is back: remove stale lock files, run the operation again on a fresh handle
         (not for repack, whose interrupted state needs the documented manual step), and expect its full effect"""
-        if kind == 'repackOne':
+        if kind in ('repackOne', 'repack'):
             return
         for fn in os.listdir(os.path.join(d, 'packs')):
             if fn.endswith('.lock'):
@@ -616,7 +628,7 @@ class Lab:
         except Exception:  # pylint: disable=broad-except
             out = {'out': 'child-died'}
         self.bump('fault_outcome.' + ('raised' if str(out.get('out', '')).startswith('raised') else 'completed'))
-        allow_loud = kind == 'repackOne'
+        allow_loud = kind in ('repackOne', 'repack')
         label = f'I/O call #{k} ({events[k][0] if k < len(events) else "?"}) of {kind} failed'
         probs = self._oracle(d, pool, cfg, set(keep), univ, allow_loud, label)
         for p in probs[:1]:
